@@ -393,6 +393,13 @@ def build_cmds(lp, h="h0", how="load"):
     """alternative construction through create + new_col + add_ranged_rows (exercises other paths)"""
     if how == "load":
         return load_cmd(lp, h)
+    if how == "file":
+        # the same problem, but the object comes from the MPS reader (row-wise matrix copy, names, raw-data leftovers)
+        global _FILE_CTR
+        if not file_origin_ok(lp):
+            return load_cmd(lp, h)
+        _FILE_CTR += 1
+        return load_cmd(lp, h) + via_file_cmds("b%d_%s" % (_FILE_CTR, h), h) + ["dump %s" % h]
     sense = "max" if lp["max"] else "min"
     lines = ["create %s prob %s" % (h, sense)]
     m, n = lp["m"], lp["n"]
@@ -498,7 +505,8 @@ def via_file_cmds(tag, h="h0"):
     return ["write_prob %s %s MPS" % (h, f), "free %s" % h, "read_prob %s %s MPS" % (h, f)]
 
 
-BUILD_MODES = ["load", "create", "rowsfirst", "interleave"]
+BUILD_MODES = ["load", "create", "rowsfirst", "interleave", "file"]
+_FILE_CTR = 0
 
 
 def witness_event(lp, w, h="h0"):
